@@ -238,8 +238,18 @@ func stdFrame(l string) bool {
 // runtime / standard library) is harness code, e.g. a simulated connection's Read
 // called by a library goroutine. Such a report is the harness's own race.
 func accessInHarness(stack []string) bool {
+	copying := false
 	for _, fn := range stack {
 		if stdFrame(fn) {
+			if strings.HasPrefix(fn, "runtime.slicecopy") || strings.HasPrefix(fn, "runtime.memmove") {
+				copying = true
+			}
+			continue
+		}
+		if copying && (strings.HasSuffix(fn, "(*simConn).Read") || strings.HasSuffix(fn, "(*simConn).Write")) {
+			// the simulated socket copying into / out of the buffer its caller passed
+			// in: the memory is the caller's, as with a real socket
+			copying = false
 			continue
 		}
 		return !libFrame(fn)
